@@ -138,7 +138,7 @@ MODES = [None, "value", "ref", "ref-novalue", "ref-skip", "async"]
 
 def model(ctx):
     f = ctx.repo.func(P + "Parameters._setup_params")
-    problems = {"C12": [], "C14": [], "C08": [], "C10": [], "C01": [], "C05": []}
+    problems = {"C12": [], "C14": [], "C08": [], "C10": [], "C01": [], "C05": [], "C02": []}
     n = 0
     for kw_plain, kw_lst, ml, mm, unknown in itertools.product([False, True, "default-object"], [False, True], MODES, MODES, [False, True]):
         try:
@@ -149,6 +149,8 @@ def model(ctx):
         early = values.pop("__linked_early__", [])
         desc = "Cls(%s)" % ", ".join("%s=<%s>" % (k, (ml if k == "linked" else mm if k == "mlinked" else "value")) for k in given)
         if early:
+            problems["C02"].append("%s: a link is installed (%s) while later keywords are still to be validated: when one of them is rejected the construction raises, yet the source object keeps a "
+                                   "watcher on behalf of the discarded instance (and that watcher raises on the next valid assignment of the source)" % (desc, early[0]))
             problems["C05"].append("%s: while the keywords are still being applied the constructor already installs a link (%s): when a later keyword is rejected, the source object keeps a "
                                    "watcher on behalf of the half-built instance, which then runs (and may raise) on every later assignment of the source" % (desc, early[0]))
         if unknown:
